@@ -121,3 +121,21 @@ Definition digits_in (b : N) (ds : list N) : bool :=
   forallb (fun c => match digit_val c with Some d => d <? b | None => false end) ds.
 Definition base_val (b : N) (ds : list N) : N :=
   fold_left (fun a c => a * b + match digit_val c with Some d => d | None => 0 end) ds 0.
+
+(* the base and the digit part strconv.ParseUint(s, 0, 64) chooses for a non-empty s (for stating soundness) *)
+Definition base_body (s : list N) : N * list N :=
+  match s with
+  | [] => (10, [])
+  | c0 :: r0 =>
+      if c0 =? 48 then
+        match r0 with
+        | c1 :: ((_ :: _) as r2) =>
+            if lower c1 =? 98 then (2, r2)
+            else if lower c1 =? 111 then (8, r2)
+            else if lower c1 =? 120 then (16, r2)
+            else (8, r0)
+        | _ => (8, r0)
+        end
+      else (10, s)
+  end.
+Definition no_underscores (s : list N) : list N := filter (fun c => negb (c =? 95)) s.
